@@ -126,6 +126,20 @@ func GenPkt4(t *rapid.T) Pkt4 {
 		p.Opts = append(p.Opts, Opt4{82, rapid.SampledFrom([]string{"01046369726332", "0104636972630206aabbccddeeff", "0100", "01ff", H(make([]byte, 200)), "",
 			"05040a0a0a00", "0b04c0000201", "01046369726332" + "0b04c0000201", "0b03c00002", "0a0180", "0b040a0a0a01"}).Draw(t, "opt82")})
 	}
+	if rapid.IntRange(0, 3).Draw(t, "has-57") == 0 {
+		// maximum DHCP message size: the RFC 2132 minimum, below it, just above, typical, extreme, malformed;
+		// in half of these the echoed options are large, so that the reply is longer than the smaller values
+		p.Opts = append(p.Opts, Opt4{57, rapid.SampledFrom([]string{"0240", "0240", "0241", "0224", "0400", "05dc", "ffff", "0000", "02", ""}).Draw(t, "opt57")})
+		if rapid.Bool().Draw(t, "57-large-echo") {
+			var keep []Opt4
+			for _, o := range p.Opts {
+				if o.Code != 61 && o.Code != 82 {
+					keep = append(keep, o)
+				}
+			}
+			p.Opts = append(keep, Opt4{61, H(append([]byte{0}, make([]byte, 254)...))}, Opt4{82, "01c8" + H(make([]byte, 200))})
+		}
+	}
 	if rapid.IntRange(0, 3).Draw(t, "has-12") == 0 {
 		p.Opts = append(p.Opts, Opt4{12, H(rapid.SliceOfN(rapid.Byte(), 0, 40).Draw(t, "hostname"))})
 	}
